@@ -204,7 +204,13 @@ HOSTILE = ["sub", ".", "nosuchfile.conf", "package:nosuchpkg9:x",
            "utf16.conf", "http://[::1]:x/", "ftp://127.0.0.1:1/x",
            "file:///dev/null", "data:,k%20v", "http://[::1/x#frag",
            "http://[::1#f", "//[::1/x", "http://a b/#", "x#", "#",
-           "file:#f", "http://[v1.x]/#a"]
+           "file:#f", "http://[v1.x]/#a",
+           # package names no import statement could hold
+           "package:.foo:x.conf", "package:.:x", "package:..os:x",
+           "package:os.path:x", "package:a..b:x", "package: os:x",
+           "package:zcverif_dt.:x", "package:-:x", "package:1a:x",
+           "package:os:", "package:os:../x", "package:ZConfig:/etc/passwd",
+           "package:ZConfig.components.logger:", "package:__main__:x"]
 
 
 def include_case(rng, root):
@@ -505,9 +511,146 @@ def run_shard(ctx):
                                               type(e).__name__),
                     vsig="size|%s|%s" % (name, type(e).__name__))
     gone_cwd_cases(ctx, dschema)
+    passthrough_cases(ctx)
     if pool:
         for i in range(N_VALIDATOR[ctx.tier] // ctx.nshards):
             do_validator(ctx, rng, os.path.join(ctx.tmp, "c07v"), pool)
+
+
+PASS_SCHEMA = """<schema>
+  <sectiontype name="sec" datatype="zcverif_dt.raiser_sect">
+    <key name="marker"/>
+    <key name="v" datatype="zcverif_dt.raiser"/>
+    <multikey name="m" datatype="zcverif_dt.raiser"/>
+    <key name="t" datatype="timedelta"/>
+  </sectiontype>
+  <sectiontype name="odd" keytype="zcverif_dt.raiser_key">
+    <key name="+" attribute="w"/>
+  </sectiontype>
+  <key name="v" datatype="zcverif_dt.raiser"/>
+  <multikey name="m" datatype="zcverif_dt.raiser"/>
+  <key name="+" attribute="w" datatype="zcverif_dt.raiser"/>
+  <key name="t" datatype="timedelta"/>
+  <multisection type="sec" name="*" attribute="secs"/>
+  <multisection type="odd" name="*" attribute="odds"/>
+</schema>"""
+PASS_SITES = [
+    ("top key", "v %s\n"), ("top multikey", "m ok\nm %s\nm later\n"),
+    ("top wildcard key", "anything %s\n"),
+    ("section key", "<sec>\n  v %s\n</sec>\n"),
+    ("section multikey", "<sec a>\n  m %s\n</sec>\n<sec b/>\n"),
+    ("section datatype", "<sec>\n  marker %s\n</sec>\n"),
+    ("section datatype, empty form never reached",
+     "<sec/>\n<sec x>\n  marker %s\n</sec>\n"),
+    ("key type", "<odd>\n  %s v\n</odd>\n"),
+]
+
+
+def passthrough_cases(ctx, only=None):
+    """An error raised by a datatype function itself passes through
+    unchanged: the very exception object the function raised leaves the
+    entry point (ValueError alone is turned into a conversion error that
+    carries it)."""
+    import ZConfig
+    import zcverif_dt
+    res = ctx.res
+    schema = cc.load_schema(PASS_SCHEMA)
+    d = os.path.join(ctx.tmp, "c07 pass")
+    os.makedirs(d, exist_ok=True)
+    names = sorted(zcverif_dt._RAISABLE)
+    idx = 0
+    for site, tmpl in PASS_SITES:
+        for name in names:
+            for via in ("text", "path", "include", "override"):
+                idx += 1
+                label = "%s|%s|%s" % (site, name, via)
+                if only is not None and label != only:
+                    continue
+                if only is None and not ctx.mine(idx):
+                    continue
+                word = "raise:" + name
+                text = tmpl % word
+                fn = None
+                if via == "text":
+                    fn = lambda: ZConfig.loadConfigFile(  # noqa
+                        schema, io.StringIO(text))
+                elif via == "path":
+                    fp = os.path.join(d, "main.conf")
+                    with open(fp, "w") as f:
+                        f.write(text)
+                    fn = lambda: ZConfig.loadConfig(schema, fp)  # noqa
+                elif via == "include":
+                    with open(os.path.join(d, "inc.conf"), "w") as f:
+                        f.write(text)
+                    fp = os.path.join(d, "main.conf")
+                    with open(fp, "w") as f:
+                        f.write("%include inc.conf\n")
+                    fn = lambda: ZConfig.loadConfig(schema, fp)  # noqa
+                else:
+                    if site not in ("top key", "section key"):
+                        continue
+                    spec = ("v=" if site == "top key" else "sec/v=") + word
+                    base = "" if site == "top key" else "<sec>\n</sec>\n"
+                    fn = lambda: ZConfig.loadConfigFile(  # noqa
+                        schema, io.StringIO(base), overrides=[spec])
+                zcverif_dt.LAST_RAISED[0] = None
+                try:
+                    fn()
+                    got = None
+                except BaseException as e:  # noqa
+                    got = e
+                raised = zcverif_dt.LAST_RAISED[0]
+                res.evaluations += 1
+                res.count("passthrough_cases")
+                res.sig("pass|%s|%s|%s" % (site, name, via))
+                if raised is None:
+                    problem = "the datatype was never asked"
+                elif issubclass(zcverif_dt._RAISABLE[name], ValueError):
+                    # ValueError (and its subclasses) is how a datatype
+                    # says no: reported as a configuration error
+                    problem = None
+                    if not isinstance(got, ZConfig.ConfigurationError):
+                        problem = "ValueError not reported as a " \
+                            "configuration error"
+                    elif isinstance(got, ZConfig.DataConversionError) and \
+                            got.exception is not raised:
+                        problem = "conversion error does not carry the " \
+                            "datatype's exception"
+                elif got is not raised:
+                    problem = "the datatype's %s did not pass through " \
+                        "unchanged" % name
+                else:
+                    problem = None
+                if problem:
+                    res.violate(
+                        "datatype-error-not-passed-through",
+                        {"family": "passthrough", "label": label,
+                         "text": text},
+                        "%s raised by the datatype" % name,
+                        "%s: %s" % (type(got).__name__, str(got)[:160]),
+                        detail="%s via %s: %s; got %s: %s" % (
+                            site, via, problem, type(got).__name__,
+                            str(got)[:100]),
+                        vsig="pass|%s|%s" % (site, name if name in (
+                            "ValueError", "TypeError") else "other"))
+    # the stock datatype that reports with TypeError
+    for li, text in enumerate(("t 1y\n", "<sec>\n  t 3d 5x\n</sec>\n")):
+        if only is not None or not ctx.mine(li):
+            continue
+        res.evaluations += 1
+        res.count("passthrough_cases")
+        try:
+            ZConfig.loadConfigFile(schema, io.StringIO(text))
+            got = None
+        except BaseException as e:  # noqa
+            got = e
+        if type(got) is not TypeError:
+            res.violate("datatype-error-not-passed-through",
+                        {"family": "passthrough", "label": "timedelta",
+                         "text": text}, "TypeError raised by timedelta",
+                        "%s: %s" % (type(got).__name__, str(got)[:160]),
+                        detail="timedelta unit letter: got %s"
+                        % type(got).__name__, vsig="pass|timedelta")
 
 
 def gone_cwd_entries(base):
@@ -600,6 +743,8 @@ def replay(ctx, case):
     fam = case.get("family")
     if fam == "gone-cwd":
         return gone_cwd_cases(ctx, None, only=case["entry"])
+    if fam == "passthrough":
+        return passthrough_cases(ctx, only=case["label"])
     if fam == "include":
         d = os.path.join(ctx.tmp, "c07r")
         os.makedirs(os.path.join(d, "sub"))
